@@ -30,6 +30,7 @@ def run(check: Check):
              'log_softmax (never log(softmax(.)), which overflows to -inf/NaN for finite logits that are far apart), sparse targets are '
              'one-hot encoded over the class axis, the reduction is over the class axis only')
   _xent(check)
+  _truncation(check)
   check.undecided('agreement of every metric with an independent reference implementation on all inputs (values)')
   metrics = mr.metric_classes(repo)
   stats = [c.name for c in mr.stat_classes(repo)]
@@ -330,6 +331,35 @@ def _get_target_weight(check: Check):
   ok = ok and ret_ok
   check.ob('R-FOLD.mask', fi, 'weight *= target != masked_value', ok and init_ok,
            'a position is unmasked iff it differs from every masked value: conjunction of inequalities starting from ones')
+
+
+def _truncation(check: Check):
+  """A sequence is truncated iff no position holds the end-of-sequence id: a reduction over every position of the comparison with
+  self.eos_target_value, not a look at one position."""
+  repo = check.repo
+  ci = repo.cls(MOD, 'SequenceTruncationRate')
+  ev = ci.method('evaluate_example')
+  ff = FuncFlow.of(repo, ev)
+  check.analysed(ev)
+  cmps = [x for nd in ff.cfg.nodes if nd.ast is not None for x in nd.walk() if isinstance(x, ast.Compare) and len(x.ops) == 1 and any(
+      _self_field(s) == 'eos_target_value' for s in (x.left, x.comparators[0]))]
+  seen = set()
+  cmps = [c for c in cmps if not (id(c) in seen or seen.add(id(c)))]
+  if not cmps:
+    check.undecided('SequenceTruncationRate: no comparison with eos_target_value found; truncation test not judged')
+    return
+  for c in cmps:
+    other = c.comparators[0] if _self_field(c.left) == 'eos_target_value' else c.left
+    whole = _is_target(ff, other)
+    parent = ff.module.parent_of.get(c)
+    # all(target != eos)  or  not any(target == eos) / ~any(...)
+    red = None
+    if isinstance(parent, ast.Call) and c in parent.args:
+      red = (ff.ext(parent.func) or '').split('.')[-1]
+    ok = whole and ((red == 'all' and isinstance(c.ops[0], ast.NotEq)) or (red == 'any' and isinstance(c.ops[0], ast.Eq)))
+    check.ob('R-FOLD.truncated', ev, txt(parent if isinstance(parent, ast.Call) else c)[:70], ok,
+             'truncated iff *no* position of the target equals the end-of-sequence id (all(target != eos)); testing a single position '
+             '(e.g. the last unmasked token) assumes that masked ids only occur as trailing padding', node=c)
 
 
 def _xent(check: Check):
